@@ -67,12 +67,15 @@ def token_of(ws, t, side):
     return None
 
 
-def language(ws, fn, side, _stack=None, _memo=None):
-    """Set of token tuples of a codec function."""
+def language(ws, fn, side, _stack=None, _memo=None, ann=None):
+    """Set of token tuples of a codec function. With `ann` (block -> field
+    name) primitive/nested tokens of the top-level body are suffixed
+    `@field`."""
     _stack = _stack or []
     _memo = _memo if _memo is not None else {}
-    if fn.root in _memo:
-        return _memo[fn.root]
+    mkey = (fn.root, ann is not None)
+    if mkey in _memo:
+        return _memo[mkey]
     if fn.root in _stack:
         return {("REC:" + idioms.last_seg(fn.root),)}
     body = cfg.code_body(ws, fn)
@@ -107,6 +110,8 @@ def language(ws, fn, side, _stack=None, _memo=None):
         if t and t["k"] == "call" and not idioms.is_noise(t) and not idioms.is_logging(t):
             tk = token_of(ws, t, side)
             if tk is not None:
+                if ann is not None and isinstance(tk, str) and ann.get(i):
+                    tk = tk + "@" + ann[i]
                 toks[i] = tk
     memo = {}
 
@@ -172,17 +177,134 @@ def language(ws, fn, side, _stack=None, _memo=None):
         res = lang(0, 0, False)
     finally:
         sys.setrecursionlimit(old)
-    _memo[fn.root] = res
+    _memo[mkey] = res
     return res
 
 
 def normalise(seq):
     out = []
     for t in seq:
+        fld = ""
+        if "@" in t:
+            t, fld = t.rsplit("@", 1)
+            fld = "@" + fld
         if t.startswith("N:"):
             t = "N:" + re.sub(r"<.*", "", t[2:])
-        out.append(t)
+        out.append(t + fld)
     return tuple(out)
+
+
+def field_annotations(ws, fn, side, self_adt):
+    """block -> the single field of Self (or of the matched variant) whose
+    value a write takes / a read is stored into; None when not unique."""
+    from .flow import FlowGraph
+    adt = ws.adts.get(self_adt)
+    if not adt:
+        return {}
+    names = set()
+    for v in adt["variants"]:
+        for f in v["fields"]:
+            names.add(f["name"])
+    short = self_adt.rsplit("::", 1)[-1]
+    body = cfg.code_body(ws, fn)
+    fg = FlowGraph(ws, fn)
+    out = {}
+    bodies = {b.path: b for b in fn.bodies}
+
+    def stop(node):
+        # the stream cursor is shared by every read/write: do not flow through it
+        b = bodies.get(node[0])
+        if b is None or not isinstance(node[1], int):
+            return False
+        return "Binary" in b.locals[node[1]] and ("BinaryReader" in b.locals[node[1]] or "BinaryWriter" in b.locals[node[1]])
+
+    def self_fields(reads):
+        got = set()
+        for (b, p) in reads:
+            ty = b.locals[cfg.place_local(p)]
+            if short not in ty and not (cfg.place_local(p) == 1 and b.kind == "Closure"):
+                continue
+            for e in cfg.place_proj(p):
+                if e.startswith("f") and ":" in e:
+                    n = e.split(":", 1)[1]
+                    if n in names:
+                        got.add(n)
+                        break
+        return got
+    live = cfg.live_blocks(body)
+    calls = [(i, body.blocks[i]["term"]) for i in sorted(live) if body.blocks[i].get("term", {}).get("k") == "call"]
+    if side == "enc":
+        for i, t in calls:
+            tk = token_of(ws, t, side)
+            if not isinstance(tk, str):
+                continue
+            arg = t["args"][0] if tk.startswith("N:") else t["args"][-1]
+            sl = fg.back_from_operand(body, arg, stop=stop)
+            fs = self_fields(sl.reads)
+            if len(fs) == 1:
+                out[i] = next(iter(fs))
+    else:
+        read_blocks = {i for i, t in calls if isinstance(token_of(ws, t, side), str)}
+        hits = {}
+        # (a) nested decode straight into a field: receiver is &mut self.f
+        for i, t in calls:
+            tk = token_of(ws, t, side)
+            if isinstance(tk, str) and tk.startswith("N:"):
+                sl = fg.back_from_operand(body, t["args"][0], stop=stop)
+                fs = self_fields(sl.reads)
+                if len(fs) == 1:
+                    hits.setdefault(i, set()).update(fs)
+        # (b) assignments to self.f and aggregates of Self
+        for j in sorted(live):
+            for st in body.blocks[j]["s"]:
+                d = st.get("d")
+                targets = []
+                if st.get("k") == "agg" and st.get("adt") == self_adt:
+                    for fname, op in zip(st.get("fields") or [], st.get("ops") or []):
+                        targets.append((fname, op))
+                elif d and "." in d and st.get("k") in ("use", "cast", "agg"):
+                    fs = self_fields([(body, d)])
+                    if len(fs) == 1:
+                        for op in st.get("ops", []):
+                            targets.append((next(iter(fs)), op))
+                for fname, op in targets:
+                    if fname not in names:
+                        continue
+                    sl = fg.back_from_operand(body, op, stop=stop)
+                    src = {ci for (cb, ci, _ct) in sl.calls if cb is body and ci in read_blocks}
+                    if len(src) == 1:
+                        hits.setdefault(next(iter(src)), set()).add(fname)
+        for i, fs in hits.items():
+            if len(fs) == 1:
+                out[i] = next(iter(fs))
+    return out
+
+
+def compare_fields(ws, enc_fn, dec_fn, self_adt):
+    """Field-order agreement: [(encoder sequence, decoder sequence)] pairs of
+    equal shape whose field annotations conflict at some position."""
+    ea = field_annotations(ws, enc_fn, "enc", self_adt)
+    da = field_annotations(ws, dec_fn, "dec", self_adt)
+    e = {normalise(s) for s in language(ws, enc_fn, "enc", ann=ea)}
+    d = {normalise(s) for s in language(ws, dec_fn, "dec", ann=da)}
+
+    def split(seq):
+        return [tuple(t.rsplit("@", 1)) if "@" in t else (t, None) for t in seq]
+    conflicts = []
+    annotated = 0
+    dl = [split(x) for x in d]
+    for es in e:
+        se = split(es)
+        same_shape = [sd for sd in dl if len(sd) == len(se) and all(a[0] == b[0] for a, b in zip(se, sd))]
+        if not same_shape:
+            continue
+        annotated += sum(1 for a in se if a[1])
+        ok = any(all(a[1] is None or b[1] is None or a[1] == b[1] for a, b in zip(se, sd)) for sd in same_shape)
+        if not ok:
+            sd = same_shape[0]
+            pos = [(k, a[0], a[1], b[1]) for k, (a, b) in enumerate(zip(se, sd)) if a[1] and b[1] and a[1] != b[1]]
+            conflicts.append(pos)
+    return conflicts, annotated, len(ea), len(da)
 
 
 def _codec_index(ws):
